@@ -459,6 +459,10 @@ def step (quiet : Bool) (ss : Slots) (line : String) : Slots × List String :=
       | some sl => let ss := setSlot ss s sl; (ss, "R ok" :: dumpQ quiet s sl)
       | none => (ss, [bad])
     | _, _ => (ss, [bad])
+  | ["tokenise", hx] =>
+    match ofHex hx with
+    | some line => (ss, ["R " ++ showRes (fun t => "ok " ++ hexOf t.1 ++ " " ++ hexOf t.2.1 ++ " " ++ hexOf t.2.2) (FIO.findEdgeFromString line)])
+    | none => (ss, [bad])
   | "findsource" :: ds =>
     match natList (ds.filter (· != "-")) with
     | some d => (ss, ["R " ++ showRes (fun v => "ok source: " ++ toString v) (findSourceVertex d)])
